@@ -443,4 +443,218 @@ Proof.
     exists c2. rewrite <- A1. split; [reflexivity|]. split; [exact I2|]. split; [exact A2|auto].
 Qed.
 
+(* ---------- RemoveAll, size, GetKeys ---------- *)
+Lemma inv_make : forall h, cat_inv h (c_make : cat).
+Proof. intros h. split; [constructor|]. split; [constructor|]. split; [apply Permutation_refl|exact I]. Qed.
+
+Theorem get_keys_refines : forall h c, cat_inv h c -> c_get_keys h c = Ret (map fst (abs h c)).
+Proof. intros h c (_ & Ha & _). unfold c_get_keys. rewrite (read_all_alloc h _ Ha). reflexivity. Qed.
+
+Theorem size_refines : forall h c, c_get_size c = length (abs h c) /\ length (c_keys c) = length (c_keys c).
+Proof. intros h c. unfold c_get_size, abs. rewrite map_length. split; reflexivity. Qed.
+
+(* the index has exactly as many entries as the list *)
+Theorem keys_length : forall h c, cat_inv h c -> length (c_keys c) = length (c_assocs c).
+Proof.
+  intros h c (_ & _ & Hp & _). rewrite (Permutation_length Hp). unfold ents. apply map_length.
+Qed.
+
+(* ---------- SortValues / SortValuesWithRanker / ReverseValues / ShuffleValues ---------- *)
+Lemma inv_perm : forall h c ids', cat_inv h c -> Permutation (c_assocs c) ids' ->
+  cat_inv h {| c_assocs := ids'; c_keys := c_keys c |}.
+Proof.
+  intros h c ids' (Hn & Ha & Hp & Hw) P. split; cbn [c_assocs c_keys].
+  - apply (Permutation_NoDup P Hn).
+  - split; [unfold alloc; apply (Permutation_Forall P Ha)|]. split.
+    + apply (Permutation_trans Hp). unfold ents. apply Permutation_map. exact P.
+    + apply (wfm_perm K V keq keq_sym (abs h c)); [exact Hw|]. unfold abs. cbn [c_assocs]. apply Permutation_map. exact P.
+Qed.
+
+Lemma map_h_get : forall (h : heap) ids, alloc h ids -> map (h_get h) ids = map Some (map (deref h) ids).
+Proof.
+  intros h ids Ha. rewrite map_map. apply map_ext_in. intros i Hi. apply h_get_alloc. apply (alloc_In h ids i Ha Hi).
+Qed.
+
+Lemma sort_abs : forall rk (h : heap) ids, alloc h ids ->
+  map (deref h) (sort_values (rk_through rk h) ids) = sort_values rk (map (deref h) ids).
+Proof.
+  intros rk h ids Ha. apply map_Some_inj.
+  rewrite <- map_h_get.
+  - change (rk_through rk h) with (fun x y : id => rk_opt rk (h_get h x) (h_get h y)).
+    rewrite <- (sort_values_map (option (K * V)) id (h_get h) (rk_opt rk) ids).
+    rewrite (map_h_get h ids Ha).
+    rewrite (sort_values_map (option (K * V)) (K * V) Some (rk_opt rk) (map (deref h) ids)). reflexivity.
+  - unfold alloc. apply (Permutation_Forall (Permutation_sym (sort_perm _ _ ids)) Ha).
+Qed.
+
+Theorem sort_refines : forall rk h c, cat_inv h c ->
+  cat_inv h (c_sort rk h c) /\ abs h (c_sort rk h c) = sort_values rk (abs h c).
+Proof.
+  intros rk h c I. split.
+  - apply (inv_perm h c _ I). apply Permutation_sym. apply sort_perm.
+  - destruct I as (_ & Ha & _). unfold abs, c_sort. cbn [c_assocs]. apply sort_abs. exact Ha.
+Qed.
+
+Theorem reverse_refines : forall h c, cat_inv h c ->
+  cat_inv h (c_reverse c) /\ abs h (c_reverse c) = reverse_values (abs h c).
+Proof.
+  intros h c I. split.
+  - apply (inv_perm h c _ I). rewrite reverse_spec. apply Permutation_rev.
+  - unfold abs, c_reverse. cbn [c_assocs]. symmetry. apply reverse_values_map.
+Qed.
+
+Theorem shuffle_refines : forall rs h c, cat_inv h c ->
+  cat_inv h (c_shuffle rs c) /\ abs h (c_shuffle rs c) = shuffle_values rs (abs h c).
+Proof.
+  intros rs h c I. split.
+  - apply (inv_perm h c _ I). apply Permutation_sym. apply shuffle_perm.
+  - unfold abs, c_shuffle. cbn [c_assocs]. symmetry. apply shuffle_values_map.
+Qed.
+
+(* ---------- AsArray / GetIterator: fresh copies ---------- *)
+Lemma copy_all_spec : forall ids (h0 e : heap), alloc h0 ids ->
+  copy_all (h0 ++ e) ids = Ret (h0 ++ e ++ map (deref h0) ids, seq (length (h0 ++ e)) (length ids)).
+Proof.
+  induction ids as [|i t IH]; intros h0 e Ha; cbn [copy_all map length seq].
+  - rewrite app_nil_r. reflexivity.
+  - inversion Ha as [|? ? Hi Ht]; subst.
+    assert (G : h_get (h0 ++ e) i = Some (deref h0 i)).
+    { unfold h_get, deref. rewrite nth_error_app1 by exact Hi. apply nth_error_nth'. exact Hi. }
+    rewrite G. destruct (deref h0 i) as [k v] eqn:Ed. cbn [h_alloc].
+    rewrite <- app_assoc. rewrite (IH h0 (e ++ [(k, v)]) Ht). cbn [out_map fst snd].
+    rewrite <- !app_assoc. cbn [app]. f_equal. f_equal. f_equal. f_equal. rewrite !app_length. cbn. lia.
+Qed.
+
+Lemma read_all_fresh : forall (l h : heap), read_all (h ++ l) (seq (length h) (length l)) = Ret l.
+Proof.
+  induction l as [|x l IH]; intros h; cbn [length seq read_all]; [reflexivity|].
+  unfold h_get. rewrite nth_error_app2 by lia. rewrite Nat.sub_diag. cbn [nth_error].
+  replace (h ++ x :: l) with ((h ++ [x]) ++ l) by (rewrite <- app_assoc; reflexivity).
+  replace (S (length h)) with (length (h ++ [x])) by (rewrite app_length; cbn; lia).
+  rewrite IH. reflexivity.
+Qed.
+
+(* AsArray: the heap grows by one copy per association; the array holds the new ids, in order *)
+Theorem as_array_spec : forall h c, cat_inv h c ->
+  c_as_array h c = Ret (h ++ abs h c, seq (length h) (length (c_assocs c))) /\
+  read_all (h ++ abs h c) (seq (length h) (length (c_assocs c))) = Ret (abs h c).
+Proof.
+  intros h c (_ & Ha & _). unfold c_as_array. split.
+  - pose proof (copy_all_spec (c_assocs c) h [] Ha) as H. rewrite app_nil_r in H. exact H.
+  - pose proof (read_all_fresh (abs h c) h) as H. unfold abs in H at 2. rewrite map_length in H. exact H.
+Qed.
+
+Lemma drain_spec : forall (h : heap) (rest pre : list id) f, length rest <= f ->
+  drain f h {| it_vals := pre ++ rest; it_slot := length pre |} = read_all h rest.
+Proof.
+  intros h. induction rest as [|x t IH]; intros pre f Hl.
+  - destruct f; cbn [drain]; unfold has_next, it_size; cbn [it_vals it_slot]; unfold id in *;
+      rewrite app_nil_r, Nat.ltb_irrefl; reflexivity.
+  - destruct f as [|f]; [cbn in Hl; lia|]. cbn [drain read_all].
+    assert (HN : (length pre <? length (pre ++ x :: t)) = true).
+    { apply Nat.ltb_lt. rewrite app_length. cbn. lia. }
+    unfold get_next, has_next, it_size. cbn [it_vals it_slot]. unfold id in *. rewrite HN. rewrite nth_middle.
+    destruct (h_get h x) as [kv|]; [|reflexivity].
+    replace {| it_vals := pre ++ x :: t; it_slot := S (length pre) |}
+      with {| it_vals := (pre ++ [x]) ++ t; it_slot := length (pre ++ [x]) |}.
+    + rewrite (IH (pre ++ [x]) f); [reflexivity|cbn in Hl; lia].
+    + rewrite <- app_assoc, app_length. cbn. f_equal. lia.
+Qed.
+
+(* ---------- every step of the two-structure machine refines the abstract step ---------- *)
+Theorem cstep_refines : forall h c o, cat_inv h c ->
+  exists h' c', cstep vzero keq (h, c) o = Ret ((h', c'), snd (sstep vzero keq (abs h c) o)) /\
+                cat_inv h' c' /\ abs h' c' = fst (sstep vzero keq (abs h c) o) /\ frame h c h' c'.
+Proof.
+  intros h c o I. destruct o as [k v|k| |k| |ks|ks| | | |rk| |rs]; cbn [cstep sstep fst snd].
+  - destruct (set_value_refines h c k v I) as (h' & c' & E & I' & A & F). rewrite E. cbn [out_map].
+    exists h', c'. auto.
+  - destruct (remove_value_refines h c k I) as (c' & E & I' & A & S). rewrite E. cbn [out_map fst snd].
+    exists h, c'. split; [reflexivity|]. split; [exact I'|]. split; [exact A|]. split; [apply same_on_refl|auto].
+  - exists h, (c_make : cat). split; [reflexivity|]. split; [apply inv_make|]. split; [reflexivity|].
+    split; [apply same_on_refl|]. intros i [].
+  - rewrite (get_value_refines h c k I). cbn [out_map]. exists h, c. split; [reflexivity|]. split; [exact I|].
+    split; [reflexivity|apply frame_refl].
+  - rewrite (get_keys_refines h c I). cbn [out_map]. exists h, c. split; [reflexivity|]. split; [exact I|].
+    split; [reflexivity|apply frame_refl].
+  - rewrite (get_values_refines h c ks I). cbn [out_map]. exists h, c. split; [reflexivity|]. split; [exact I|].
+    split; [reflexivity|apply frame_refl].
+  - destruct (remove_values_refines ks h c I) as (c' & E & I' & A & S). rewrite E. cbn [out_map fst snd].
+    exists h, c'. split; [reflexivity|]. split; [exact I'|]. split; [exact A|]. split; [apply same_on_refl|auto].
+  - exists h, c. split; [destruct (size_refines h c) as [-> _]; reflexivity|]. split; [exact I|].
+    split; [reflexivity|apply frame_refl].
+  - destruct (as_array_spec h c I) as [E1 E2]. rewrite E1. cbn [out_bind fst snd]. rewrite E2. cbn [out_map].
+    exists (h ++ abs h c), c. split; [reflexivity|].
+    destruct (inv_same h (h ++ abs h c) c I (same_on_app _ h _)) as [I' A'].
+    split; [exact I'|]. split; [exact A'|]. split; [apply same_on_app|auto].
+  - unfold c_get_iterator. destruct (as_array_spec h c I) as [E1 E2]. rewrite E1. cbn [out_map out_bind fst snd].
+    change (it_make (seq (length h) (length (c_assocs c))))
+      with {| it_vals := [] ++ seq (length h) (length (c_assocs c)); it_slot := length (@nil id) |}.
+    rewrite drain_spec by (unfold it_size; cbn [it_vals app]; lia). rewrite E2. cbn [out_map].
+    exists (h ++ abs h c), c. split; [reflexivity|].
+    destruct (inv_same h (h ++ abs h c) c I (same_on_app _ h _)) as [I' A'].
+    split; [exact I'|]. split; [exact A'|]. split; [apply same_on_app|auto].
+  - destruct (sort_refines rk h c I) as [I' A]. exists h, (c_sort rk h c). split; [reflexivity|]. split; [exact I'|].
+    split; [exact A|]. split; [apply same_on_refl|]. cbn [c_sort c_assocs]. intros i Hi. left.
+    apply (Permutation_in i (sort_perm _ _ _) Hi).
+  - destruct (reverse_refines h c I) as [I' A]. exists h, (c_reverse c). split; [reflexivity|]. split; [exact I'|].
+    split; [exact A|]. split; [apply same_on_refl|]. cbn [c_reverse c_assocs]. intros i Hi. left.
+    rewrite reverse_spec in Hi. apply in_rev. exact Hi.
+  - destruct (shuffle_refines rs h c I) as [I' A]. exists h, (c_shuffle rs c). split; [reflexivity|]. split; [exact I'|].
+    split; [exact A|]. split; [apply same_on_refl|]. cbn [c_shuffle c_assocs]. intros i Hi. left.
+    apply (Permutation_in i (shuffle_perm _ _ _) Hi).
+Qed.
+
+(* ---------- every history ---------- *)
+Theorem crun_refines : forall ops h c, cat_inv h c ->
+  exists h' c', crun vzero keq (h, c) ops = Ret ((h', c'), snd (srun vzero keq (abs h c) ops)) /\
+                cat_inv h' c' /\ abs h' c' = fst (srun vzero keq (abs h c) ops) /\ frame h c h' c'.
+Proof.
+  induction ops as [|o t IH]; intros h c I; cbn [crun srun fst snd].
+  - exists h, c. split; [reflexivity|]. split; [exact I|]. split; [reflexivity|apply frame_refl].
+  - destruct (cstep_refines h c o I) as (h1 & c1 & E1 & I1 & A1 & F1). rewrite E1. cbn [out_bind fst snd].
+    destruct (IH h1 c1 I1) as (h2 & c2 & E2 & I2 & A2 & F2). rewrite E2. cbn [out_map fst snd].
+    exists h2, c2. rewrite <- A1. split; [reflexivity|]. split; [exact I2|]. split; [exact A2|].
+    destruct I as (_ & Ha & _). apply (frame_trans h c h1 c1 h2 c2 Ha F1 F2).
+Qed.
+
+(* ---------- a handed-out array is out of reach of the catalog ---------- *)
+Definition sep (h : heap) (c : cat) (arr : list id) : Prop :=
+  Forall (fun i => i < length h /\ ~ In i (c_assocs c)) arr.
+
+Lemma frame_sep : forall h c h' c' arr, frame h c h' c' -> sep h c arr ->
+  sep h' c' arr /\ map (deref h') arr = map (deref h) arr.
+Proof.
+  intros h c h' c' arr [[L E] N] S. unfold sep in *. rewrite Forall_forall in S. split.
+  - apply Forall_forall. intros i Hi. destruct (S i Hi) as [S1 S2]. split; [lia|].
+    intros X. destruct (N i X) as [Y|Y]; [contradiction|lia].
+  - apply map_ext_in. intros i Hi. destruct (S i Hi) as [S1 S2]. apply E; assumption.
+Qed.
+
+Lemma sep_alloc : forall h c arr, sep h c arr -> alloc h arr.
+Proof. intros h c arr S. unfold sep, alloc in *. rewrite Forall_forall in *. intros i Hi. apply (S i Hi). Qed.
+
+Lemma sep_fresh : forall h c (e : heap), alloc h (c_assocs c) -> sep (h ++ e) c (seq (length h) (length e)).
+Proof.
+  intros h c e Ha. unfold sep. apply Forall_forall. intros i Hi. apply in_seq in Hi. split.
+  - rewrite app_length. lia.
+  - intros X. apply (alloc_In _ _ _ Ha) in X. lia.
+Qed.
+
+Theorem snapshot_independent : forall h c, cat_inv h c ->
+  forall h2 arr, c_as_array h c = Ret (h2, arr) ->
+  read_all h2 arr = Ret (abs h c) /\
+  forall ops h3 c3 obs, crun vzero keq (h2, c) ops = Ret ((h3, c3), obs) -> read_all h3 arr = Ret (abs h c).
+Proof.
+  intros h c I h2 arr E. destruct (as_array_spec h c I) as [E1 E2]. rewrite E1 in E. injection E as <- <-.
+  split; [exact E2|]. intros ops h3 c3 obs R.
+  destruct (inv_same h (h ++ abs h c) c I (same_on_app _ h _)) as [I2 A2].
+  destruct (crun_refines ops _ c I2) as (h3' & c3' & R' & _ & _ & F). rewrite R' in R. injection R as <- <- _.
+  assert (S : sep (h ++ abs h c) c (seq (length h) (length (c_assocs c)))).
+  { pose proof (sep_fresh h c (abs h c)) as X. unfold abs in X at 2. rewrite map_length in X. apply X. apply I. }
+  destruct (frame_sep _ _ _ _ _ F S) as [S3 M].
+  rewrite (read_all_alloc _ _ (sep_alloc _ _ _ S3)), M.
+  rewrite <- (read_all_alloc _ _ (sep_alloc _ _ _ S)). exact E2.
+Qed.
+
 End CatalogProofs.
